@@ -211,14 +211,13 @@ func c10DefaultCarried(ctx *Ctx, r *Report) map[*types.Func]bool {
 	return covered
 }
 
-
 // c10FreshRefs: hand-rolled rewrites. Every ast.NewRef(...) built by a compiler pass that takes the place of
 // an existing type (it is returned by a function receiving the replaced IR node, or stored into a .Type /
 // .ValueType / Branches[i] position) gets the replaced type's Default: through an ast.Default(...) option of
 // the constructor (directly or in its options slice) or a `<ref>.Default = …` assignment.
 var c10FreshRefExemptions = map[string]string{
 	"internal/ast/compiler.DisjunctionOfAnonymousStructsToExplicit.processDisjunction": "the reference replaces a *branch* of a union: defaults are declared on the union, not on its branches",
-	"internal/ast/compiler.RemoveIntersections.processStruct":                         "pass of the Java chain only (C10 is stated for Go and Python); by-catch noted in DESIGN.md: the rebuilt field also loses Required",
+	"internal/ast/compiler.RemoveIntersections.processStruct":                          "pass of the Java chain only (C10 is stated for Go and Python); by-catch noted in DESIGN.md: the rebuilt field also loses Required",
 	"internal/ast/compiler.SchemaSetEntrypoint.Process":                                "sets the schema's entry point: nothing is replaced",
 }
 
